@@ -468,6 +468,8 @@ def run_case(entry, el, case, fresh_el=None, track=False):
     obs['ret_shares'] = int(any(np.shares_memory(np.asarray(o.electric_field), np.asarray(wf1.electric_field)) for o in outs1))
     obs['out'] = o1
     obs['in'] = E1_keep
+    obs['ins'] = [E1_keep]          # every (input, outputs) pair of this case that the model is asked to reproduce
+    obs['outs'] = [o1]
     obs['multi'] = multi
     if multi != entry.multi:
         fail('output-form', 'forward returned %s' % ('several wavefronts' if multi else 'one wavefront'))
@@ -489,6 +491,8 @@ def run_case(entry, el, case, fresh_el=None, track=False):
             state_check(state_diff(s1, s2), 'second identical call')
         outs2, _ = guarded(el, wf2, E2, 'call with another wavefront')
         o2 = out_arrays(outs2)
+        obs['ins'].append(np.array(E2, copy=True))
+        obs['outs'].append(o2)
         ok, w = same(o1, out_arrays(outs1), 0.0, 0.0)
         if not ok:
             fail('result-overwritten', 'a later call (with another wavefront) changed the wavefront returned by an earlier call')
@@ -512,6 +516,8 @@ def run_case(entry, el, case, fresh_el=None, track=False):
         # (iii) linearity
         outs3, _ = guarded(el, wf3, E3, 'call with a*E1+E2')
         o3 = out_arrays(outs3)
+        obs['ins'].append(np.array(E3, copy=True))
+        obs['outs'].append(o3)
     except Exception as ex:     # noqa
         fail('raises', '%s raised %s on a later call: %s' % (direction, type(ex).__name__, str(ex)[:120]))
         return bad, obs
@@ -816,30 +822,24 @@ def clist(z):
     return '[' + ','.join(parts) + ']'
 
 
-def t_mul(m):
-    return 'mul ' + clist(m)
+def a_vec(m):
+    return 'v ' + clist(m)
 
 
-def t_mat(A):
+def a_mat(A):
     A = np.asarray(A, dtype=complex)
-    return 'mat %d %s' % (A.shape[0], clist(A))
+    if A.ndim != 2:
+        raise MachineryError('matrix argument of a family must be 2-D, got shape %r' % (A.shape,))
+    return 'm %d %s' % (A.shape[0], clist(A))
 
 
-def t_comp(*ts):
-    """comp(t1, t2, ..., tn) = t1 after t2 after ... after tn"""
-    ts = [t for t in ts if t is not None]
-    res = ts[-1]
-    for t in reversed(ts[:-1]):
-        res = 'comp %s %s' % (t, res)
-    return res
+def a_opt(m):
+    return '-' if m is None else a_vec(m)
 
 
-def t_add(s, t):
-    return 'add %s %s' % (s, t)
-
-
-def t_sub(s, t):
-    return 'sub %s %s' % (s, t)
+def fam(name, *args):
+    """Request text `FAMILY ARG...` for `C06 denote-family`: the term is built by Elements.familyTerm in Lean."""
+    return name + ' ' + ' '.join(args) if args else name
 
 
 def probe(f, grid, wl, kind='scalar'):
@@ -877,8 +877,10 @@ def apod_of(sub, grid, wl, direction):
 
 
 def ir_term(entry, el, direction, kind, wl):
-    """(term, kind_used) or None.  The term uses only parameters the element exposes."""
-    fam = entry.family
+    """`FAMILY ARG...` or None: the name of the family schema of Model/Elements.lean (`Elements.familyTerm`) and its
+    arguments, which are only parameters the element exposes (sub-propagators probed as dense matrices).  The term
+    itself is built in Lean."""
+    fam_ = entry.family
     fwd = direction == 'forward'
     cname = entry.cls.__name__
     grid = entry.input_grid if fwd else entry.output_grid
@@ -886,17 +888,17 @@ def ir_term(entry, el, direction, kind, wl):
     import hcipy
     if entry.mult is not None:
         m = np.asarray(entry.mult(el, wl, direction), dtype=complex) * np.ones(grid.size)
-        return t_mul(np.tile(m, reps))
+        return fam('pointwise', a_vec(np.tile(m, reps)))
     if isinstance(el, hcipy.Apodizer):                       # every Apodizer subclass: its own instance data
-        return t_mul(np.tile(apod_of(el, grid, wl, direction), reps))
+        return fam('pointwise', a_vec(np.tile(apod_of(el, grid, wl, direction), reps)))
     if cname in ('MicroLensArray', 'SphericalMicroLensArray', 'EvenAsphereMicroLensArray'):
-        return t_mul(np.tile(apod_of(el.mla_surface, grid, wl, direction), reps))
+        return fam('pointwise', a_vec(np.tile(apod_of(el.mla_surface, grid, wl, direction), reps)))
     if cname == 'PeriodicOpticalElement':
-        return t_mul(np.tile(apod_of(el.apodization, grid, wl, direction), reps))
+        return fam('pointwise', a_vec(np.tile(apod_of(el.apodization, grid, wl, direction), reps)))
     if cname == 'SimpleVibration':
         ph = np.asarray(el.mode) * el.amplitude / wl * np.sin(el.phase)
-        return t_mul(np.tile(np.exp((1j if fwd else -1j) * ph), reps))
-    if fam == 'jones' and kind == 'vector':
+        return fam('pointwise', a_vec(np.tile(np.exp((1j if fwd else -1j) * ph), reps)))
+    if fam_ == 'jones' and kind == 'vector':
         J = np.asarray(el.get_instance_data(grid, None, wl).jones_matrix, dtype=complex)
         if J.ndim == 2:
             J = J[:, :, None] * np.ones(grid.size)
@@ -907,63 +909,61 @@ def ir_term(entry, el, direction, kind, wl):
         for i in range(2):
             for j in range(2):
                 A[i * n:(i + 1) * n, j * n:(j + 1) * n] = np.diag(J[i, j])
-        return t_mat(A)
+        return fam('dense', a_mat(A))
     if kind != 'scalar':
         return None
-    if fam == 'fibre-injection':
+    if fam_ == 'fibre-injection':
         if cname == 'SingleModeFiberInjection':
             mode = np.asarray(el.mode, dtype=complex)
             if fwd:
-                return t_comp(t_mat((mode * el.input_grid.weights)[None, :]), 'conj')
-            return t_mat(mode[:, None])
+                return fam('fibreForward', a_mat((mode * el.input_grid.weights)[None, :]))
+            return fam('fibreBackward', a_mat(mode[:, None]))
         P = np.asarray(el.projection_matrix, dtype=complex)
         if fwd:
-            return t_comp(t_mat(P.T * (el.input_grid.weights * np.ones(P.shape[0]))[None, :]), 'conj')
-        return t_mat(P)
-    if fam == 'projection':
-        return t_sub('id', t_comp(t_mat(el.transformation), t_mul(el.coeffs), t_mat(el.transformation_inverse)))
-    if fam == 'lyot' and cname == 'LyotCoronagraph':
+            return fam('fibreForward', a_mat(P.T * (el.input_grid.weights * np.ones(P.shape[0]))[None, :]))
+        return fam('fibreBackward', a_mat(P))
+    if fam_ == 'projection':
+        return fam('projection', a_mat(el.transformation), a_vec(el.coeffs), a_mat(el.transformation_inverse))
+    if fam_ == 'lyot' and cname == 'LyotCoronagraph':
         fg = el.prop.get_instance_data(entry.input_grid, None, wl).output_grid
         Pf = probe(el.prop.forward, entry.input_grid, wl)
         Pb = probe(el.prop.backward, fg, wl)
         m = apod_of(el.focal_plane_mask, fg, wl, direction)
         stop = apod_of(el.lyot_stop, entry.input_grid, wl, direction)
-        core = t_sub('id', t_comp(t_mat(Pb), t_mul(1 - m), t_mat(Pf)))
         if stop is None:
-            return core
-        return t_comp(t_mul(stop), core) if fwd else t_comp(core, t_mul(stop))
-    if fam == 'lyot' and cname == 'ZernikeWavefrontSensorOptics':
+            return fam('lyotCore', a_mat(Pb), a_vec(1 - m), a_mat(Pf))
+        return fam('lyotForward' if fwd else 'lyotBackward', a_vec(stop), a_mat(Pb), a_vec(1 - m), a_mat(Pf))
+    if fam_ == 'lyot' and cname == 'ZernikeWavefrontSensorOptics':
         fg = el.prop.get_instance_data(entry.input_grid, None, wl).output_grid
         Pf = probe(el.prop.forward, entry.input_grid, wl)
         Pb = probe(el.prop.backward, fg, wl)
         m = apod_of(el.phase_dot, fg, wl, direction)
-        return t_sub('id', t_comp(t_mat(Pb), t_mul(1 - m), t_mat(Pf)))
-    if fam == 'sandwich' and cname == 'OccultedLyotCoronagraph':
+        return fam('lyotCore', a_mat(Pb), a_vec(1 - m), a_mat(Pf))
+    if fam_ == 'sandwich' and cname == 'OccultedLyotCoronagraph':
         fg = el.prop.get_instance_data(entry.input_grid, None, wl).output_grid
         Pf = probe(el.prop.forward, entry.input_grid, wl)
         Pb = probe(el.prop.backward, fg, wl)
-        return t_comp(t_mat(Pb), t_mul(apod_of(el.focal_plane_mask, fg, wl, direction)), t_mat(Pf))
-    if fam == 'multiscale':
+        return fam('sandwich', a_mat(Pb), a_vec(apod_of(el.focal_plane_mask, fg, wl, direction)), a_mat(Pf))
+    if fam_ == 'multiscale':
         g = entry.input_grid
         stop = apod_of(el.lyot_stop, g, wl, direction)
         F0 = probe_field_map(el.props[0].forward if fwd else el.props[0].backward, g)
-        term = t_mat(F0)
+        args = [a_opt(stop), a_mat(F0)]
+        # Elements.multiscale adds the levels in the order `rest first`: sums commute exactly in the model
         for mask, prop in list(zip(el.focal_masks, el.props))[1:]:
             fg = prop.get_instance_data(g, None, 1).output_grid
             Pf = probe(prop.forward, g, 1)
             Pb = probe(prop.backward, fg, 1)
             mk = np.asarray(mask, dtype=complex)
-            term = t_add(term, t_comp(t_mat(Pb), t_mul(mk if fwd else mk.conj()), t_mat(Pf)))
-        if stop is None:
-            return term
-        return t_comp(t_mul(stop), term) if fwd else t_comp(term, t_mul(stop))
-    if fam == 'fibre-modes':
+            args += [a_mat(Pb), a_vec(mk if fwd else mk.conj()), a_mat(Pf)]
+        return fam('multiscaleForward' if fwd else 'multiscaleBackward', *args)
+    if fam_ == 'fibre-modes':
         inst = el.get_instance_data(grid, None, wl)
         M = np.asarray(inst.fiber_modes.transformation_matrix, dtype=complex)
         ph = np.exp((1j if fwd else -1j) * np.asarray(inst.beta) * el.fiber_length)
         w = grid.weights * np.ones(grid.size)
-        return t_comp(t_mat(M.conj()), t_mul(ph), t_mat(M.conj().T), t_mul(w))
-    if fam == 'fibre-nuller':
+        return fam('fibreModes', a_mat(M.conj()), a_vec(ph), a_mat(M.conj().T), a_vec(w))
+    if fam_ == 'fibre-nuller':
         fib = el.fiber
         fg = el.focal_grid
         if fwd:
@@ -973,16 +973,18 @@ def ir_term(entry, el, direction, kind, wl):
             else:
                 Pm = np.asarray(fib.projection_matrix, dtype=complex)
                 rows = Pm.T * (fib.input_grid.weights * np.ones(Pm.shape[0]))[None, :]
-            return t_comp(t_mat(rows), 'conj', t_mat(P), t_mul(apod_of(el.apodizer, entry.input_grid, wl, 'forward')) if el.apodizer is not None else None)
+            return fam('fibreNuller', a_mat(rows), a_mat(P),
+                       a_opt(apod_of(el.apodizer, entry.input_grid, wl, 'forward') if el.apodizer is not None else None))
         Pb = probe(el.prop.backward, fg, wl)
         B = np.asarray(fib.mode, dtype=complex)[:, None] if hasattr(fib, 'mode') else np.asarray(fib.projection_matrix, dtype=complex)
-        return t_comp(t_mul(apod_of(el.apodizer, entry.input_grid, wl, 'backward')) if el.apodizer is not None else None, t_mat(Pb), t_mat(B))
+        return fam('fibreNullerBackward', a_opt(apod_of(el.apodizer, entry.input_grid, wl, 'backward') if el.apodizer is not None else None),
+                   a_mat(Pb), a_mat(B))
     if cname == 'SurfaceAberrationAtDistance':
         Ff = probe(el.fresnel.forward, grid, wl)
         Fb = probe(el.fresnel.backward, grid, wl)
-        return t_comp(t_mat(Fb), t_mul(apod_of(el.surface_aberration, grid, wl, direction)), t_mat(Ff))
+        return fam('sandwich', a_mat(Fb), a_vec(apod_of(el.surface_aberration, grid, wl, direction)), a_mat(Ff))
     subs = None
-    if fam == 'system' and hasattr(el, '_optical_elements'):
+    if fam_ == 'system' and hasattr(el, '_optical_elements'):
         subs = list(el.optical_elements)
     elif cname == 'PyramidWavefrontSensorOptics':
         subs = [el.pupil_to_focal, el.spatial_filter, el.pyramid, el.focal_to_pupil]
@@ -991,13 +993,13 @@ def ir_term(entry, el, direction, kind, wl):
     if subs is not None:
         subs = subs if fwd else list(reversed(subs))
         g = grid
-        terms = []
+        parts = []
         for sub in subs:
             f = sub.forward if fwd else sub.backward
             A = probe(f, g, wl)
-            terms.append(t_mat(A))
+            parts.append(a_mat(A))
             g = f(hcipy.Wavefront(hcipy.Field(np.zeros(g.size, dtype=complex), g), wl)).electric_field.grid
-        return t_comp(*reversed(terms)) if terms else 'id'
+        return fam('system', *parts)         # Elements.system: first part is applied first
     return None
 
 
@@ -1196,12 +1198,18 @@ def run(ctx):
                 continue
             if heavy:
                 heavy_budget -= 1
-            requests.append(('C06 denote %s @ %s' % (term, clist(obs['in'])), 'denote', (case, obs, e)))
+            requests.append(('C06 denote-family %s @ %s' % (term, ' @ '.join(clist(x) for x in obs['ins'])), 'denote', (case, obs, e)))
             ctx.count('denote-family:' + e.family)
+            ctx.count('denote-schema:' + term.split(' ', 1)[0])
+            ctx.count('denote-inputs:%d' % len(obs['ins']))
     ctx.extra['internal_cells_seen'] = internal_seen
     if not requests:
         return
+    import time
+    t_model = time.time()
     answers = ctx.model([r[0] for r in requests])
+    ctx.extra['model_seconds'] = round(time.time() - t_model, 1)
+    ctx.extra['model_request_MB'] = round(sum(len(r[0]) for r in requests) / 1e6, 1)
     for (line, what, payload), ans in zip(requests, answers):
         ctx.traces_validated += 1
         case, obs = payload[0], payload[1]
@@ -1216,16 +1224,23 @@ def run(ctx):
         else:
             e = payload[2]
             toks = ans.split(' ')
-            if len(toks) != 3 or toks[0] != 'ok':
-                raise MachineryError('unexpected denote answer %r' % ans[:120])
+            n_in = len(obs['ins'])
+            if len(toks) != 3 + n_in or toks[0] != 'ok':
+                raise MachineryError('unexpected denote-family answer %r to %r' % (ans[:120], line[:80]))
             conj = e.conj_forward if case['direction'] == 'forward' else e.conj_backward
-            if toks[1] != ('par=conj' if conj else 'par=lin'):
-                ctx.disagree('C06 denote parity', {'case': label, 'model': toks[1], 'registry': 'conj' if conj else 'lin'})
-            ref = parse_clist(toks[2])
-            got = obs['out'][0].ravel()
-            if ref.shape != got.shape or maxabs(ref - got) > TOL_MODEL * max(1.0, maxabs(got)):
-                ctx.disagree('C06 denote', {'case': label, 'max_diff': (maxabs(ref - got) if ref.shape == got.shape else 'shape %r vs %r' % (ref.shape, got.shape)),
-                                            'scale': maxabs(got)})
+            want = 'conj' if conj else 'lin'
+            # the parity computed structurally on the term Lean built, the parity the Lean family table declares
+            # (Family.conj; theorem family_parity says the two agree) and what the registry says the code does
+            if toks[1] != 'par=' + want or toks[2] != 'expect=' + want:
+                ctx.disagree('C06 denote parity', {'case': label, 'model': toks[1] + ' ' + toks[2], 'registry': want})
+            for k in range(n_in):
+                ctx.traces_validated += 1 if k else 0
+                ref = parse_clist(toks[3 + k])
+                got = obs['outs'][k][0].ravel()
+                if ref.shape != got.shape or maxabs(ref - got) > TOL_MODEL * max(1.0, maxabs(got)):
+                    ctx.disagree('C06 denote', {'case': label, 'input': ('E1', 'E2', 'a*E1+E2')[k], 'schema': line.split(' ')[2],
+                                                'max_diff': (maxabs(ref - got) if ref.shape == got.shape else 'shape %r vs %r' % (ref.shape, got.shape)),
+                                                'scale': maxabs(got)})
 
 
 def warm_up(e, el, case):
